@@ -20,6 +20,8 @@ kind = {kind!r}
 try:
     if kind == "sleep1":
         em.sleep(1.0)              # ends exactly when the 1 s grace wait of an overlapping submission expires
+    if kind == "sleep04":
+        em.sleep(0.4)              # ends well inside the grace wait of a submission that overlaps it
     if kind == "block":
         channel.receive()          # released by the initiator
     if kind == "raise":
@@ -53,6 +55,11 @@ class MtoScn:
             prev = None
             prev_kind = None
             for idx, (kind, mode) in enumerate(P["hist"]):
+                if mode == "overlap-short":
+                    # submitted while the previous (short) body still runs: admitted once that one has ended
+                    ch = gw.remote_exec(BODY.format(idx=idx, kind=kind))
+                    prev, prev_kind = ch, kind
+                    continue
                 if prev is not None and mode == "seq":
                     if prev_kind == "block":
                         prev.send("go")
@@ -171,6 +178,9 @@ def histories(tier):
     if tier == "quick":
         # all histories of length <= 2, and length 3 restricted to those with a failing middle or an overlap
         hs = [h for h in hs if len(h) <= 2 or (h[1][0] in ("raise", "sysexit", "kbi") and h[0][0] in ("ret", "block") and h[2][0] in ("ret", "raise")) or any(m == "overlap" for _, m in h) and h[2][0] in ("ret",) and h[0][0] == "block"]
+    # a body submitted while a SHORT one still runs is admitted afterwards; what overlaps *it* must be refused
+    hs.append([("sleep04", "seq"), ("block", "overlap-short"), ("ret", "overlap"), ("ret", "seq")])
+    hs.append([("sleep04", "seq"), ("ret", "overlap-short"), ("block", "seq"), ("ret", "overlap")])
     # the grace wait of an overlapping submission expiring exactly when the earlier body ends
     for tail in (["ret"], ["ret", "ret"], ["raise", "ret"]):
         hs.append([("sleep1", "seq"), ("ret", "overlap")] + [(k, "seq") for k in tail])
@@ -191,7 +201,7 @@ def run(tier: str, only=None) -> int:
         P = {"hist": H}
         if i % 7 == 0:
             rep.sample({"sub": name, "params": P})
-        deep = len(H) <= 2
+        deep = len(H) <= 2 or any(k == "sleep04" for k, _ in H)
         tie = any(k == "sleep1" for k, _ in H)  # timer ties are picks at blocking points: need free >= 1
         harness.run_exploration(rep, PID, name + "/sync", MtoScn, P, ({"ps": 2, "free": 1} if deep or tie else {"ps": 1, "free": 0}) if tier == "quick" else {"ps": 2, "free": 2 if tie else 1}, max_execs=cap)
         if deep or tier == "thorough":
